@@ -230,6 +230,8 @@ def gen(rng, tier):
             out.append(dict(kind='atv', sdate=sd, stime=st, tstep=T, flags=fl if rng.random() < 0.5 else None, n=nt,
                             pre=rng.random() < 0.4))
     out += _irregular_cases(rng)
+    # on every run: a file described by its header only whose steps span more than 2**31 seconds (monthly means over 76 years)
+    out.append(dict(kind='atv', sdate=rng.choice([1950001, 1990001]), stime=0, tstep=7440000, flags=None, n=rng.randint(850, 900), pre=False))
     # on every run: a flag file thinned with a stride whose multiple of the step is no HHMMSS multiple of it (30 min x 4 is
     # 2 h, not 012000): the closing edge of the thinned file and the flags a copy regenerates (oracle only)
     for T, stride in ((3000, 4), (4500, 3), (2000, 6), (rng.choice([10000, 3000]), rng.choice([2, 24]))):
